@@ -107,7 +107,7 @@ Proof.
   apply (remove_id_in id cl p Hin).
 Qed.
 
-(* members that were admitted under the non-operator rules *)
+(* members that were let in under the non-operator rules *)
 Definition plain (c : client) : bool := negb (c_op c) && negb (c_sys c).
 Definition n_plain (cl : list (str * client)) : Z :=
   zlength (filter (fun p => plain (snd p)) cl).
@@ -282,13 +282,13 @@ Qed.
 
 (* the three outcomes of the admission step *)
 Lemma add_client_cases g now j :
-  (exists e, e <> RAdmitted /\ step g (SAddClient now j) = (g, mkOut e [])) \/
+  (exists e, e <> RAccepted /\ step g (SAddClient now j) = (g, mkOut e [])) \/
   (exists isop, admission_check g now j = inr isop /\ j_id j <> [] /\
      ~ In (j_id j) (ids (g_clients g)) /\
      step g (SAddClient now j) =
        (mkGroup (g_locked g)
                 (g_clients g ++ [(j_id j, mkClient (j_uid j) isop (j_sys j))]) (g_desc g),
-        mkOut RAdmitted (announce j (g_clients g)))).
+        mkOut RAccepted (announce j (g_clients g)))).
 Proof.
   cbn [step]. unfold add_client_locked.
   destruct (admission_check g now j) as [e|isop] eqn:A.
@@ -311,7 +311,7 @@ Proof.
         -- apply lookup_none, L.
 Qed.
 
-(* what an admitted non-operator, non-system joiner has passed *)
+(* what an let in non-operator, non-system joiner has passed *)
 Lemma admission_check_plain g now j :
   admission_check g now j = inr false -> j_sys j = false ->
   d_auth (g_desc g) (j_cred j) = Some false /\
@@ -366,9 +366,9 @@ Qed.
 
 (* ------------------------------------------------------------ C10 lemmas *)
 
-(* admit_conditions: one step from any state *)
-Lemma admit_conditions_step g now j g' o :
-  step g (SAddClient now j) = (g', o) -> o_res o = RAdmitted ->
+(* entry_conditions: one step from any state *)
+Lemma entry_conditions_step g now j g' o :
+  step g (SAddClient now j) = (g', o) -> o_res o = RAccepted ->
   j_sys j = false -> d_auth (g_desc g) (j_cred j) = Some false ->
   g_locked g = None /\
   (forall nb, d_not_before (g_desc g) = Some nb -> nb <= now) /\
@@ -391,7 +391,7 @@ Lemma ops_exempt_step g now j :
   exists c,
     step g (SAddClient now j) =
       (mkGroup (g_locked g) (g_clients g ++ [(j_id j, c)]) (g_desc g),
-       mkOut RAdmitted (announce j (g_clients g))) /\
+       mkOut RAccepted (announce j (g_clients g))) /\
     c_uid c = j_uid j /\ c_sys c = j_sys j /\
     (j_sys j = false -> c_op c = true).
 Proof.
@@ -409,7 +409,7 @@ Qed.
 
 (* a rejected admission step changes nothing and announces nothing *)
 Lemma reject_no_effect_step g now j g' o :
-  step g (SAddClient now j) = (g', o) -> o_res o <> RAdmitted ->
+  step g (SAddClient now j) = (g', o) -> o_res o <> RAccepted ->
   g' = g /\ o_events o = [].
 Proof.
   intros Hst Hres.
@@ -511,11 +511,11 @@ Proof.
   intros m ->. apply (Hg pre m o post Hin).
 Qed.
 
-(* with autolock a non-operator is only admitted while an operator is a member *)
+(* with autolock a non-operator is only let in while an operator is a member *)
 Lemma autolock_admission d l pre now j o post :
   guarded_unlocks (created d) l ->
   In (pre, SAddClient now j, o, post) (exec (created d) l) ->
-  o_res o = RAdmitted -> j_sys j = false ->
+  o_res o = RAccepted -> j_sys j = false ->
   d_auth (g_desc pre) (j_cred j) = Some false ->
   d_autolock (g_desc pre) = true ->
   has_op (g_clients pre) = true.
@@ -523,21 +523,21 @@ Proof.
   intros Hg Hin Hres Hs Ha Hal.
   destruct (proj2 (AL_everywhere d l Hg) _ _ _ _ Hin) as [Hpre _].
   pose proof (exec_step _ _ _ _ _ _ Hin) as Hst.
-  destruct (admit_conditions_step _ _ _ _ _ Hst Hres Hs Ha) as (Hl & _).
+  destruct (entry_conditions_step _ _ _ _ _ Hst Hres Hs Ha) as (Hl & _).
   destruct (has_op (g_clients pre)) eqn:E; [reflexivity|].
   exfalso. apply (Hpre Hal E). exact Hl.
 Qed.
 
 (* capacity *)
 Lemma capacity_step g now j g' o :
-  step g (SAddClient now j) = (g', o) -> o_res o = RAdmitted ->
+  step g (SAddClient now j) = (g', o) -> o_res o = RAccepted ->
   j_sys j = false -> d_auth (g_desc g) (j_cred j) = Some false ->
   0 < d_max_clients (g_desc g) ->
   zlength (g_clients g') <= d_max_clients (g_desc g) /\
   zlength (g_clients g') = zlength (g_clients g) + 1.
 Proof.
   intros Hst Hres Hs Ha Hm.
-  destruct (admit_conditions_step _ _ _ _ _ Hst Hres Hs Ha) as (_ & _ & _ & _ & Hc).
+  destruct (entry_conditions_step _ _ _ _ _ Hst Hres Hs Ha) as (_ & _ & _ & _ & Hc).
   specialize (Hc Hm).
   destruct (add_client_cases g now j) as [(e & Hne & He)|(isop & _ & _ & _ & He)];
     rewrite He in Hst; inversion Hst; subst; cbn [o_res] in Hres; [congruence|].
@@ -702,7 +702,7 @@ Fixpoint old_exec (g : group) (l : list old_op) : list (group * old_op * out * g
   end.
 
 (* J: Add (operator still present) | D: remove the last operator, unlock |
-   J: admission checks -> admitted | D: autoLockKick -> locked *)
+   J: admission checks -> let in | D: autoLockKick -> locked *)
 Lemma f4_split_delclient_witness :
   let d := demo_desc 0 true false in
   let o := mkJoiner 1 [111] false false 0 in
@@ -711,7 +711,7 @@ Lemma f4_split_delclient_witness :
             OStep (SAdd None); ODelRemove [111] 1; OStep (SAddClient 0 u); ODelAutoLock] in
   exists pre out post,
     In (pre, OStep (SAddClient 0 u), out, post) (old_exec (created d) l) /\
-    o_res out = RAdmitted /\ d_autolock (g_desc pre) = true /\
+    o_res out = RAccepted /\ d_autolock (g_desc pre) = true /\
     has_op (g_clients pre) = false /\ d_auth (g_desc pre) (j_cred u) = Some false.
 Proof.
   cbv zeta. eexists _, _, _. split.
